@@ -16,6 +16,9 @@ pub mod texmacro;
 pub mod token;
 pub mod types;
 pub mod variable;
+#[cfg(texcraft_verif)]
+#[doc(hidden)]
+pub mod verif_std;
 pub mod vm;
 
 /// Module that re-exports all of the crate's traits.
